@@ -10,6 +10,10 @@ func AliasClosure(b *Base) map[int]*Base {
 		if b == nil || out[b.ID] != nil {
 			return
 		}
+		if b.Desc == "nil-slice" {
+			// a nil slice has no backing array: nothing can share it (appending to it allocates)
+			return
+		}
 		out[b.ID] = b
 		walk(b.Alias)
 		if (b.Op == "append" || b.Op == "appendU") && b.From != nil {
